@@ -51,7 +51,7 @@ type Contract struct {
 	Requires []*Clause
 	Ensures  []*Clause
 	Modifies []string // location expressions (source text)
-	Fresh    []string // result names that are freshly allocated
+	Fresh    []string // result names that are freshly allocated ("name" or "name if cond")
 	Loops    map[int]*LoopSpec
 	Stub     bool   // trusted contract of a function outside the verified set
 	Trusted  string // reason / description for stubs
@@ -64,6 +64,7 @@ type Contract struct {
 	Line     int
 	Uses     []string // lemma instantiations "name(args)" assumed at entry (after being proved separately)
 	Ghostsets []GhostSet // ghost assignments executed at every return (ghost code kept in the contract)
+	Before   map[string][]*Clause // call-site assertions keyed by callee, evaluated with the locals visible at the call
 }
 
 type GhostSet struct {
@@ -213,13 +214,16 @@ func (db *SpecDB) loadSpecFile(path string, prefix string) error {
 		if i := strings.Index(t, " // "); i >= 0 {
 			t = t[:i]
 		}
+		if i := strings.Index(t, "  # "); i >= 0 {
+			t = t[:i]
+		}
 		if strings.HasPrefix(strings.TrimSpace(t), "//") {
 			continue
 		}
 		lines = append(lines, lineT{strings.TrimSpace(t), i + 1})
 	}
 	// join continuation lines: a line that does not start with a directive keyword continues the previous one
-	kw := regexp.MustCompile(`^(contract|stub|rec func|func|ufunc|ghost field|const|axiom|lemma|owner|prop|requires|ensures|invariant|modifies|fresh|loop|trusted|maypanic|pure|nooverflow|inline|thread|use|by induction|ghostset|also|split)\b`)
+	kw := regexp.MustCompile(`^(contract|stub|rec func|func|ufunc|ghost field|const|axiom|lemma|owner|prop|requires|ensures|invariant|modifies|fresh|loop|trusted|maypanic|pure|nooverflow|inline|thread|use|by induction|ghostset|also|split|before)\b`)
 	var joined []lineT
 	for _, l := range lines {
 		if kw.MatchString(l.text) || len(joined) == 0 {
@@ -400,6 +404,36 @@ func (db *SpecDB) loadSpecFile(path string, prefix string) error {
 			} else {
 				cur.Modifies = append(cur.Modifies, locs...)
 			}
+		case strings.HasPrefix(t, "before "):
+			if cur == nil {
+				return fail(l, "before outside contract")
+			}
+			rest := strings.TrimPrefix(t, "before ")
+			i := strings.Index(rest, ": ")
+			if i < 0 {
+				return fail(l, "before <callee>: [@props] [label:] expr")
+			}
+			callee := strings.TrimSpace(rest[:i])
+			m := reClauseHead.FindStringSubmatch("requires " + strings.TrimSpace(rest[i+2:]))
+			if m == nil {
+				return fail(l, "bad before clause")
+			}
+			cl := &Clause{Kind: "before", Src: m[4], File: path, Line: l.no}
+			if m[2] != "" {
+				cl.Props = strings.Split(strings.TrimPrefix(strings.TrimSpace(m[2]), "@"), ",")
+			}
+			if m[3] != "" {
+				cl.Label = strings.TrimSuffix(strings.TrimSpace(m[3]), ":")
+			}
+			e, err := parseExpr(m[4])
+			if err != nil {
+				return fail(l, "%v", err)
+			}
+			cl.E = stripParens(e)
+			if cur.Before == nil {
+				cur.Before = map[string][]*Clause{}
+			}
+			cur.Before[callee] = append(cur.Before[callee], cl)
 		case strings.HasPrefix(t, "ghostset "):
 			if cur == nil {
 				return fail(l, "ghostset outside contract")
@@ -459,7 +493,7 @@ func (db *SpecDB) loadSpecFile(path string, prefix string) error {
 			if cur == nil {
 				return fail(l, "fresh outside contract")
 			}
-			cur.Fresh = append(cur.Fresh, splitList(strings.TrimPrefix(t, "fresh "))...)
+			cur.Fresh = append(cur.Fresh, strings.TrimSpace(strings.TrimPrefix(t, "fresh ")))
 		case strings.HasPrefix(t, "use "):
 			if cur == nil {
 				return fail(l, "use outside contract")
